@@ -64,6 +64,7 @@ UNIT = {
         'local consequences of INV are preconditions: val(i) >= 256 ==> counts_09bit >= 1 (decrement), counts_09bit == 0 ==> every element < 256 for the ghost element (narrowing helpers)',
         'array sizes bounded by 10^6 elements in the proofs (object-size limit of the memory model), element index and ghost index fully symbolic',
     ],
+    'unverified_surroundings': {'C06': ['see U-hdr / U-reduce'], 'C07': ['storage/ct_styles.cc']},
     'jobs': [
         job('cnt_expand8to16', 'counter_array__expand8to16', loops=1),
         job('cnt_expand16to32', 'counter_array__expand16to32', loops=1),
